@@ -411,7 +411,7 @@ class Renderer:
         if to_end:
             lo, hi = ha[0], fhi
         else:
-            hb = s.find_anchor(b, ha[0] + (0 if from_start else 1), fhi, kb)
+            hb = s.find_anchor(b, ha[0] + (1 if (exclusive and not from_start) else 0), fhi, kb)
             if len(hb) < 1 or (kb is None and len(hb) != 1):
                 raise ExtractError('block %s: to-anchor %r matches %d times after from-anchor' % (path, b, len(hb)))
             lo, hi = ha[0], (hb[0] if exclusive else hb[0] + len(b))
